@@ -233,34 +233,31 @@ def insertSorted (a : Int) : List Int → List Int
 def canonSet (l : List Int) : List Int := l.foldr insertSorted []
 
 /-- the platform setter's own argument handling: `none` = ValueError, `some a` = values handed to the OS -/
-def setterArgs (cfg : Cfg) (pid : Nat) : SetKind → List Int → Option (Option (List Int))
-  | .nice, [v] => some (some [v])
-  | .ionice, [c] => some (some [c, 0])                      -- `value is None` → 0
+def setterArgs (cfg : Cfg) (pid : Nat) : SetKind → List Int → Option (List Int)
+  | .nice, [v] => some [v]
+  | .ionice, [c] => some [c, 0]                             -- `value is None` → 0
   | .ionice, [c, v] =>
-    if v ≠ 0 && cfg.ioNoValue.contains c then some none     -- "ioclass accepts no value"
-    else if v < 0 || v > 7 then some none                   -- "value not in 0-7 range"
-    else some (some [c, v])
+    if v ≠ 0 && cfg.ioNoValue.contains c then none          -- "ioclass accepts no value"
+    else if v < 0 || v > 7 then none                        -- "value not in 0-7 range"
+    else some [c, v]
   | .rlimit, r :: lim =>
-    if pid == 0 && cfg.rlimitPid0Refused then some none     -- "can't use prlimit() against PID 0 process"
-    else if lim.length ≠ 2 then some none                   -- "second argument must be a (soft, hard) tuple"
-    else some (some (r :: lim))
-  | .affinity, c :: cs => some (some (canonSet (c :: cs)))
+    if pid == 0 && cfg.rlimitPid0Refused then none          -- "can't use prlimit() against PID 0 process"
+    else if lim.length ≠ 2 then none                        -- "second argument must be a (soft, hard) tuple"
+    else some (r :: lim)
+  | .affinity, c :: cs => some (canonSet (c :: cs))
   | _, _ => none                                            -- not a call shape the harness produces
 
-/-- setting form of `nice / ionice / rlimit / cpu_affinity` -/
+/-- setting form of `nice / ionice / rlimit / cpu_affinity`: guard, then the platform method -/
 def setterM (cfg : Cfg) (k : Kernel) (ps : Ps) (o : PObj) (kind : SetKind) (args : List Int) : MRes :=
-  match setterArgs cfg o.pid kind args with
-  | none => ⟨ps, o, none, .exc .badCall⟩
-  | some checked =>
-    let g := guardedO cfg (guardOf cfg kind) k ps o
-    if g.2.2 then ⟨g.1, g.2.1, none, .exc (.noSuchProcess o.pid)⟩
-    else
-      match checked with
-      | none => ⟨g.1, g.2.1, none, .exc .valueError⟩
-      | some a =>
-        match k.find o.pid with
-        | none => ⟨g.1, g.2.1, none, .exc (.noSuchProcess o.pid)⟩      -- ESRCH → wrap_exceptions
-        | some x => ⟨g.1, g.2.1, some (.set kind, o.pid, a, some x.start), .unit⟩
+  let g := guardedO cfg (guardOf cfg kind) k ps o
+  if g.2.2 then ⟨g.1, g.2.1, none, .exc (.noSuchProcess o.pid)⟩
+  else
+    match setterArgs cfg o.pid kind args with
+    | none => ⟨g.1, g.2.1, none, .exc .valueError⟩
+    | some a =>
+      match k.find o.pid with
+      | none => ⟨g.1, g.2.1, none, .exc (.noSuchProcess o.pid)⟩      -- ESRCH → wrap_exceptions
+      | some x => ⟨g.1, g.2.1, some (.set kind, o.pid, a, some x.start), .unit⟩
 
 /-- `ppid()`: guarded query (the value itself is C05's subject) -/
 def ppidM (cfg : Cfg) (k : Kernel) (ps : Ps) (o : PObj) : MRes :=
@@ -299,6 +296,11 @@ def processIter (cfg : Cfg) (k : Kernel) (ps : Ps) : Ps × List Nat :=
   let ps1 := if new.isEmpty then ps else (bootForCreate cfg k ps).1
   ({ ps1 with pmap := pm ++ new, pidsReused := [] }, table)
 
+/-- append the effect of a call made through object `i` (newest first) -/
+def pushEff (i : Nat) (log : List Eff) : Option (EffKind × Int × List Int × Option Nat) → List Eff
+  | none => log
+  | some (kind, pid, arg, owner) => ⟨kind, i, pid, arg, owner⟩ :: log
+
 def step (cfg : Cfg) (s : St) : Ev → St × Out
   | .k e => ({ s with kern := s.kern.apply e }, .unit)
   | .c call =>
@@ -327,10 +329,7 @@ def step (cfg : Cfg) (s : St) : Ev → St × Out
           match method cfg s.kern s.ps o call with
           | none => (s, .exc .badCall)
           | some r =>
-            (⟨s.kern, setObj r.ps i r.o,
-              match r.eff with
-              | none => s.log
-              | some (kind, pid, arg, owner) => ⟨kind, i, pid, arg, owner⟩ :: s.log⟩, r.out)
+            (⟨s.kern, setObj r.ps i r.o, pushEff i s.log r.eff⟩, r.out)
 
 def run (cfg : Cfg) (s : St) : List Ev → St
   | [] => s
